@@ -807,6 +807,43 @@ def contains(interp, container, x):
     raise Unsupported('in on %r' % (container,))
 
 
+_IMMUT = (int, float, str, bytes, tuple, SInt, SReal, SStr, SBytes, SBool)
+
+
+def identity(interp, a, b):
+    """a is b.  For equal immutable values that are not known to be the same
+    object the answer is implementation defined (interning, caching): it is
+    modelled as a non-deterministic boolean, so code relying on it is checked
+    for both outcomes."""
+    if a is b:
+        return True
+    if a is None or b is None:
+        return False
+    if isinstance(a, bool) or isinstance(b, bool):
+        if isinstance(a, bool) and isinstance(b, bool):
+            return a is b
+        if isinstance(a, SBool) or isinstance(b, SBool):
+            if isinstance(a, (bool, SBool)) and isinstance(b, (bool, SBool)):
+                return py_eq(interp, a, b)
+        return False
+    if isinstance(a, (OpaqueStr,)) or isinstance(b, (OpaqueStr,)):
+        raise Unsupported('identity of untracked strings')
+    if isinstance(a, _IMMUT) and isinstance(b, _IMMUT):
+        from .models import host_type_of
+        if host_type_of(a) is not host_type_of(b):
+            return False
+        eq = py_eq(interp, a, b)
+        if eq is False:
+            return False
+        p = interp.path
+        nd = mk_bool(z3.Bool('same_object!%d' % next(p.fresh)))
+        return bool_and(eq if isinstance(eq, (bool, SBool))
+                        else truthy(interp, eq), nd)
+    if is_symbolic(a) or is_symbolic(b):
+        return False
+    return a is b
+
+
 def compare(interp, op, a, b):
     if op is ast.Eq:
         return py_eq(interp, a, b)
@@ -817,28 +854,10 @@ def compare(interp, op, a, b):
     if op in (ast.Lt, ast.LtE, ast.Gt, ast.GtE):
         return order(interp, op, a, b)
     if op is ast.Is or op is ast.IsNot:
-        if is_symbolic(a) or is_symbolic(b):
-            if a is None or b is None:
-                r = False
-            elif a is b:
-                r = True
-            else:
-                raise Unsupported('identity of symbolic values')
-        elif isinstance(a, (bool, type(None))) or isinstance(
-                b, (bool, type(None))):
-            r = a is b
-        elif isinstance(a, (int, str, bytes, float, tuple)) and \
-                isinstance(b, (int, str, bytes, float, tuple)):
-            if a is b:
-                r = True
-            elif type(a) is not type(b) or a != b:
-                r = False
-            else:
-                raise Unsupported('identity of equal immutable values '
-                                  '(implementation defined)')
-        else:
-            r = a is b
-        return r if op is ast.Is else not r
+        r = identity(interp, a, b)
+        if op is ast.Is:
+            return r
+        return bool_not(r)
     if op is ast.In:
         return contains(interp, b, a)
     if op is ast.NotIn:
